@@ -64,7 +64,8 @@ class ArbiterWorld(World):
                         f.append(o)
             intrs.append({"g": ig, "feats": sorted(f)})
         mode = rng.wchoice([("byz", 4), ("proto", 3), ("mixed", 3)])
-        return {"aw": aw, "dw": dw, "g": g, "feats": sorted(feats), "intrs": intrs, "mode": mode}
+        return {"aw": aw, "dw": dw, "g": g, "feats": sorted(feats), "intrs": intrs, "mode": mode,
+                "feats_as": rng.choice(["str", "str", "enum"])}
 
     def gen_ops(self, rng, config, prop):
         ops = []
@@ -102,12 +103,15 @@ class ArbiterWorld(World):
         from amaranth_soc import wishbone
         aw, dw, g = config["aw"], config["dw"], config["g"]
         feats = set(config["feats"])
+        # the documented type of a feature is wishbone.Feature; strings are accepted too
+        spell = (lambda fs: {wishbone.Feature(f) for f in fs}) if config.get("feats_as") == "enum" \
+            else (lambda fs: set(fs))
         dut = hw.construct(wishbone.Arbiter, addr_width=aw, data_width=dw, granularity=g,
-                           features=feats)
+                           features=spell(feats))
         intrs = []
         for i, ic in enumerate(config["intrs"]):
             ib = hw.construct(wishbone.Interface, addr_width=aw, data_width=dw,
-                              granularity=ic["g"], features=set(ic["feats"]), path=(f"i{i}",))
+                              granularity=ic["g"], features=spell(ic["feats"]), path=(f"i{i}",))
             hw.construct(dut.add, ib)
             intrs.append((ib, ic["g"], set(ic["feats"])))
         n = len(intrs)
